@@ -9,7 +9,10 @@ CHECK = {
                 'calendar arithmetic has a finite, enumerable domain and the floating-point hazards sit at enumerable ties.',
   'level_note': 'Trusts g++/ASan, glibc gmtime_r as the independent calendar (cross-checked on every day), glibc POSIX TZ strings. Sub-second instants: a grid of fractions plus the doubles '
                 'within 3 steps of each tie on the listed boundaries (thorough: before every day start and every second of the 200 days); other sub-second instants are not enumerated. '
-                '"To the millisecond" is read as: the FULL text is the exact rendering of the truncated or of a nearest millisecond, all fields from that one millisecond. '
+                'ISO texts produced by the library (LONG, SHORT, FULL; UTC and local) are compared through the instant they denote, read by an independent ISO 8601 reader of the layout of the format '
+                '(SHORT basic, LONG/FULL extended, FULL with at least the milliseconds): any valid spelling passes (other number of fraction digits, numeric offset instead of Z or of no designator, omitted zero seconds); '
+                'only the HTTP text, which RFC 7231 fixes completely, is compared literally. "To the millisecond" is read as: the FULL text denotes an instant within 1 ms of t (truncation, nearest, rounding up), '
+                'splitUTC and the texts without fraction show the second of a whole millisecond within 1 ms of t. A zone offset written in the other layout (basic date-time with +hh:mm, extended with +hhmm) is not ISO 8601: invalid or the shifted instant are both accepted. '
                 'Local-time expectations (zone-less texts, Date(y,m,d,...)) are checked as documented behaviour under the two fixed zones only; half-hour zones are out of scope '
                 '(Date::localOffset works in whole hours). Values of the format-driven parser Date(str, fmt) are not compared (the statement is silent on them): ASan oracle only.',
   'rule': 'complete enumeration: every day 0001-01-01..9999-12-31 x times of day; every second of 200 distinct days; doubles -3..+3 steps around the ms ties on 216 boundary instants and around '
